@@ -31,6 +31,20 @@ def mc_stage(ctx, configs, invariants_note, negatives=()):
     ctx.exhaustive = True
 
 
+def live_stage(ctx):
+    """liveness under weak fairness of the steps of a running call: an explain_one call that was entered returns or
+    raises (no step of the call waits for anything); without the fairness assumption TLC must refute it"""
+    for c in ("live_sage", "live_pfi"):
+        r = tlc.require_ok(tlc.run("MC_IncExplainer", "MC_IncExplainer_" + c, tag=ctx.pid.lower() + "live"), c)
+        if r.status != "ok":
+            raise tlc.TLCError("IncExplainer(%s): liveness property %s fails\n%s" % (c, r.violated, r.counterexample[:2000]))
+        ctx.add_tlc("MC_IncExplainer_%s: FairSpec => CallTerminates, ReturnCounts (temporal properties)" % c, r, kind="liveness")
+    r = tlc.require_ok(tlc.run("MC_IncExplainer", "MC_IncExplainer_live_neg", tag=ctx.pid.lower() + "liveneg"), "live_neg")
+    if r.status != "violation":
+        raise tlc.TLCError("negative control: without fairness CallTerminates must not hold (status %s)" % r.status)
+    ctx.add_tlc("negative control: Spec without fairness does not imply CallTerminates (stuttering)", r, kind="negative_control")
+
+
 def abs_stage(ctx, configs):
     """The atomic specification (one explain_one call = one step) checked on its own: deeper call sequences."""
     for c in configs:
